@@ -228,7 +228,15 @@ WATCH_SCRIPTS = {
     "w_unreachable_meta_then_handover": [("P", 350, 600), ("F", 300), ("MU", 1200), ("MD", 300), ("X", 450, 600), ("F", 300), ("M",)],
     "w_full_first_then_handover": [("F", 1400), ("X", 450, 600), ("F", 300), ("M",)],
     "w_empty_file_handover": [("P0", 300, 600), ("F", 1300), ("X0", 400, 600), ("F", 300), ("M",)],
+    # a start-up that takes most of the grace period (a shortened grace removes this lock)
+    "w_long_half_written": [("P", 850, 850), ("F", 300), ("M",)],
+    # two half-written lock files in a row with nothing valid in between: the second one is young when the client's
+    # timer, started on the first, runs out (recorded finding D9d: the timer belongs to the observer, not to the file)
+    "w_two_half_written_in_a_row": [("P", 900, 900), ("X", 990, 990), ("F", 300), ("M",)],
 }
+QUICK_SCRIPTS = ("w_plain", "w_handover_after_slow_start", "w_unreachable_meta_then_handover", "w_empty_file_handover", "w_long_half_written",
+                 "w_two_half_written_in_a_row")
+GRACE_MS = 1000
 
 
 def cli_watch_cases(v, wd, rip, ids=None):
@@ -387,18 +395,26 @@ def cli_watch_cases(v, wd, rip, ids=None):
         case = {"engine": "cli-watch", "script": sid, "phases": phases}
         v.add_eval({"cli_watch": sid}, True)
         unobserved = [k for k, s_ in seen_log if not s_]
-        if events:
+        inconclusive = bool(events) and events[0]["state"] == "half-written" and events[0]["age_ms"] >= GRACE_MS
+        if inconclusive:
+            # the file was observed gone only after a full grace period of its own (a stalled machine): what the code is designed to do
+            v.cov.setdefault("cli_watch_inconclusive", []).append({sid: events[0]})
+        elif events:
             ev = events[0]
+            # the file was younger than the grace period when it went (the measured age is an upper bound of its age at removal)
+            only_half_written_so_far = all(ph[0] in ("P", "P0", "X", "X0") for ph in phases[:ev["phase"] + 1])
+            key = "D9d-cli-grace-timer-spans-lock-files" if (sid == "w_two_half_written_in_a_row" and ev["phase"] == 1 and only_half_written_so_far
+                                                           and ev["state"] == "half-written") else None
             v.violation(f"waiting client, script {sid}: the client {ev['what']} lock.json of a live authority (pid alive, file {ev['state']}, "
                         f"{ev['age_ms']} ms old, inside the 1 s grace) in phase {ev['phase']} {phases[ev['phase']][0]}"
-                        + ("; it then started another `rip serve`" if spawned_log or strays else ""), dict(case, event=ev))
+                        + ("; it then started another `rip serve`" if spawned_log or strays else ""), dict(case, event=ev), key=key)
         elif spawned_log or strays:
             v.violation(f"waiting client, script {sid}: the client started a server although lock.json was never absent and its owner is alive", case)
         elif not attached:
             v.violation(f"waiting client, script {sid}: the live authority advertised {endpoint} but the client never attached (rc {client.returncode}: {se.strip()[:160]})", case)
         if unobserved:
             v.cov.setdefault("cli_watch_phases_not_observed_by_client", []).append({sid: unobserved})
-        log(f"[cli-watch] {sid}: {'VIOLATION' if events or spawned_log or strays or not attached else 'ok'} in {time.time() - t_start:.1f}s (phases seen by the client: {seen_log})")
+        log(f"[cli-watch] {sid}: {'lock taken' if events else 'server started' if spawned_log or strays else 'ok' if attached else 'not attached'} in {time.time() - t_start:.1f}s (phases seen by the client: {seen_log})")
         shutil.rmtree(root, ignore_errors=True)
     srv.shutdown()
     v.cov["cli_watch_scripts"] = n_run
@@ -508,9 +524,19 @@ def run(tier, seed):
     if r.violated:
         v.violation("client never attaches from dead_partial_meta (TLC)", {"engine": "tlc", "cfg": "AuthorityCli_wedge.cfg"},
                     key="D20b-cli-never-recovers-half-written-lock-next-to-dead-meta")
+    r = tlc.run("AuthorityCli", "AuthorityCli_grace_file.cfg", workers=4, timeout=900)
+    v.add_tlc(r, "AuthorityCli with an explicit grace timer that restarts when the unreadable lock is another file, compare-and-rename cleanup: CSafe, every client attaches")
+    if not r.ok:
+        log(r.out[-3000:])
+        die_tool("AuthorityCli (grace timer per file) violates its properties")
+    r = tlc.run("AuthorityCli", "AuthorityCli_grace_observer.cfg", workers=1, timeout=900)
+    v.add_tlc(r, "AuthorityCli with the grace timer as implemented (started on the first unreadable lock the client sees): counterexample expected (finding D9d)")
+    v.cov["grace_timer_counterexample"] = bool(r.violated) and "ClientCorruptRename" in r.out
+    if not v.cov["grace_timer_counterexample"]:
+        die_tool("AuthorityCli_grace_observer: expected counterexample (ClientCorruptRename of a live creator's lock) not found")
     # ---- the real client binary: waiting on a scripted live authority (both tiers), leftover states end to end (thorough)
     rip = build_rip()
-    cli_watch_cases(v, wd, rip, ids=None if thorough else ("w_plain", "w_handover_after_slow_start", "w_unreachable_meta_then_handover", "w_empty_file_handover"))
+    cli_watch_cases(v, wd, rip, ids=None if thorough else QUICK_SCRIPTS)
     if thorough:
         cli_cases(v, wd, rip)
     g = tlc.run("GenAuthority", "GenAuthority_t.cfg", workers=4, timeout=1200, heap="8g")
